@@ -7,7 +7,7 @@ import random
 
 from progs.devdiff import IMPORTS, LCD_DECLS
 
-GEOMETRY = {"parallel": (16, 2), "i2c": (16, 2), "20x4": (20, 4), "8x2": (8, 2)}
+GEOMETRY = {"parallel": (16, 2), "i2c": (16, 2), "20x4": (20, 4), "8x2": (8, 2), "40x2": (40, 2), "24x2": (24, 2)}
 WORDS = ["", "a", "Hi", "temp", "Level:", "0123456789", "hello world", "a much longer text than one row holds", "x y z", "OK!", "  padded  ",
          'Say "hi" to everyone', "it's 5 o'clock somewhere", "a\\b\\c\\d\\e\\f\\g\\h", '""""""""""', "100% #1 {x}"]
 ALIGNS = ["left", "right", "center", "Left", "RIGHT", "Center"]
